@@ -9,6 +9,8 @@ Inductive case08 :=
 | NName (s : string) (cls : nat)                 (* every pkg/parser entry point on s *)
 | NAnnot (m : amap) (cls : nat)                  (* cdi.ParseAnnotations(m) *)
 | NKey (plugin devid : string) (cls : nat)       (* cdi.AnnotationKey *)
+| NVal (devices : list string) (cls : nat)       (* cdi.AnnotationValue *)
+| NUpd (m : amap) (plugin devid : string) (devices : list string) (cls : nat)   (* cdi.UpdateAnnotations *)
 | NBytes (entry : string) (len : nat) (cls : nat) (reported : bool).
   (* byte-level stream (text layers are third-party code, not modelled): entry point, input length, class, and whether the
      outcome was reported as the property demands (error returned / error entry for the file / content loaded) *)
@@ -22,11 +24,13 @@ Definition corr08 (c : case08) : bool :=
       Nat.eqb m cls || Nat.eqb cls 3
   | NAnnot m cls => Nat.eqb (model_cls (parse_annotations m)) cls || Nat.eqb cls 3
   | NKey p d cls => Nat.eqb (model_cls (annotation_key p d)) cls || Nat.eqb cls 3
+  | NVal ds cls => Nat.eqb (model_cls (annotation_value ds)) cls || Nat.eqb cls 3
+  | NUpd m p d ds cls => Nat.eqb (model_cls (fst (update_annotations m p d ds))) cls || Nat.eqb cls 3
   | NBytes _ _ _ _ => true
   end.
 Definition oracle08 (c : case08) : bool :=
   match c with
-  | NName _ cls | NAnnot _ cls | NKey _ _ cls => Nat.eqb cls 0
+  | NName _ cls | NAnnot _ cls | NKey _ _ cls | NVal _ cls | NUpd _ _ _ _ cls => Nat.eqb cls 0
   | NBytes _ _ cls reported => Nat.eqb cls 0 && reported
   end.
 Definition judge08 (cases : list case08) : list nat * list nat :=
